@@ -85,6 +85,7 @@ class ValueGen(object):
 
     def __init__(self, U, max_arr=3, poly=False, full=False, **prim_kw):
         self.full = full          # never None, never empty: "fully populated" objects
+        self.nil_unspellable = False   # formats that cannot spell null: mandatory => present
         self.U = U
         self.cspec = {c["name"]: c for c in U["classes"]}
         self.espec = {e["name"]: e for e in U["enums"]}
@@ -162,7 +163,7 @@ class ValueGen(object):
             if mn == 0 and not self.full:
                 return st.one_of(st.none(), lst, lst)
             return lst
-        can_none = ((mn == 0) or nil) and not self.full
+        can_none = ((mn == 0) or (nil and not self.nil_unspellable)) and not self.full
         if can_none and depth < 4:
             return st.one_of(st.none(), one, one, one)
         if can_none:
